@@ -17,6 +17,12 @@ CHECKS = {
             'recorded push stream: all push sequences over 2 keys x 3 values up to length 5 (quick) / 7 (thorough) '
             'x k in 0..3, random hostile histories, and every read inside real searches; search results are checked '
             'for the n_designs cap and non-increasing score order.', '§5 C14'),
+    'C16': ('table oracle (acceptance predicate + row->class map) over a complete enumeration of small tables and ordered subsets',
+            'Every table over the 8 possible rows on <=3 (quick) / <=4 (thorough) geos, column- and index-keyed, is '
+            'constructed on the real GeoEligibility and the accept/reject decision and exception type compared with the '
+            'predicate; for every accepted table every ordered subset (incl. empty / None) is queried with and without '
+            'indices and the seven classes checked to partition it with each geo in its row\'s class; malformed variants '
+            '(missing/duplicate columns, duplicate ids, bad entries) are generated per case.', '§5 C16'),
 }
 
 NOT_YET = {}
